@@ -106,6 +106,41 @@ inline int nlsf_violation(const int16_t* v, const int16_t* dmin, int d) {
   return -1;
 }
 
+// RFC 6716 4.2.7.5.4 stabilisation, transcribed from the text: up to 20 minimal adjustments, then the
+// sort / upward max / downward min fall-back.  NLSF[-1] = 0, NLSF[d] = 32768.
+inline void model_stabilize(int16_t* v16, const int16_t* dmin, int d) {
+  int v[16];
+  for (int i = 0; i < d; i++) v[i] = v16[i];
+  bool done = false;
+  for (int rep = 0; rep < 20 && !done; rep++) {
+    int best = 0, bi = 0;
+    for (int i = 0; i <= d; i++) {
+      int lo = i == 0 ? 0 : v[i - 1], hi = i == d ? 32768 : v[i];
+      int m = hi - lo - dmin[i];
+      if (i == 0 || m < best) { best = m; bi = i; }
+    }
+    if (best >= 0) { done = true; break; }
+    if (bi == 0) v[0] = dmin[0];
+    else if (bi == d) v[d - 1] = 32768 - dmin[d];
+    else {
+      int minc = dmin[bi] >> 1, maxc = 32768 - (dmin[bi] >> 1);
+      for (int k = 0; k < bi; k++) minc += dmin[k];
+      for (int k = bi + 1; k <= d; k++) maxc -= dmin[k];
+      int c = (v[bi - 1] + v[bi] + 1) >> 1;
+      c = c < minc ? minc : c > maxc ? maxc : c;   // the limits cannot cross: sum(dmin) < 32768
+      v[bi - 1] = c - (dmin[bi] >> 1);
+      v[bi] = v[bi - 1] + dmin[bi];
+    }
+  }
+  if (!done) {
+    // the fall-back executes after the 20th repetition regardless (it is the identity on a valid vector)
+    for (int i = 1; i < d; i++) { int x = v[i], j = i - 1; while (j >= 0 && v[j] > x) { v[j + 1] = v[j]; j--; } v[j + 1] = x; }
+    for (int k = 0; k < d; k++) { int lo = (k ? v[k - 1] : 0) + dmin[k]; if (v[k] < lo) v[k] = lo; }
+    for (int k = d - 1; k >= 0; k--) { int hi = (k == d - 1 ? 32768 : v[k + 1]) - dmin[k + 1]; if (v[k] > hi) v[k] = hi; }
+  }
+  for (int i = 0; i < d; i++) v16[i] = (int16_t)v[i];
+}
+
 // ---- NLSF -> LPC in double precision --------------------------------------
 // costab: the 129-entry table of 2*cos(pi*i/128) in Q12 (piece-wise linear map,
 // as the codec defines the NLSF domain through this table).
